@@ -33,6 +33,16 @@ Theorem C02_istream_records :
 Proof. exact istream_records. Qed.
 Print Assumptions C02_istream_records.
 
+(* gz / bz2 / xz / multi-member inputs: FilePiece on top of ANY reader that hands out the plain
+   bytes in some chunking (1..amount bytes per Read, 0 only at the end -- the contract of the
+   decompressing readers, property C15); the chunking is the script *)
+Theorem C02_stream_reader_records :
+  forall cap plain chunking d cr, 1 <= cap -> no_err chunking = true ->
+  exists sf, read_all d cr (fp_open_stream cap plain chunking) = (Ok (records d cr plain), sf) /\
+    (forall d' cr', read_line d' cr' sf = (RlEOF, sf)).
+Proof. exact stream_reader_records. Qed.
+Print Assumptions C02_stream_reader_records.
+
 (* regular file read through mmap windows (and the fall back to read() when mmap refuses an
    empty mapping): all file contents, all start offsets of the descriptor, all page sizes,
    all window sizes >= one page (the constructor's is >= two pages, next theorem) *)
